@@ -432,8 +432,16 @@ func cmdRun(args []string) int {
 			vacuous++
 		}
 		// vacuity
+		// a run cut short by its time or path limit (or stopped after enough
+		// counterexamples) has simply not got there yet: that is a reduced bound,
+		// reported as such, not a vacuous harness
+		cut := !res.Complete && (strings.HasPrefix(res.StopReason, "time limit") || strings.HasPrefix(res.StopReason, "path limit") || strings.HasPrefix(res.StopReason, "stopped early") || res.StopReason == "interrupted")
 		for _, c := range run.Covers {
 			if !res.Covers[c] {
+				if cut {
+					say("INCOMPLETE run=%s: cover point %q not reached before the run was cut (%s)", run.Name, c, res.StopReason)
+					continue
+				}
 				say("VACUOUS run=%s cover point %q was not reached on any feasible path", run.Name, c)
 				vacuous++
 			}
@@ -781,6 +789,7 @@ func newEngine(prog *ssa.Program, run *RunSpec, ts *TierSpec, knownIDs map[strin
 	e.setupModels()
 	if ts.CrossCheck {
 		e.crossCheck = crossCheckFinal
+		e.xBudget = 120 * time.Second
 	}
 	e.maxPreempts = ts.Preempts
 	e.preemptIn = ts.PreemptIn
@@ -1150,15 +1159,48 @@ func crossCheckFinal(e *Engine, c *Term, r string) {
 	if e.pathFP {
 		return // floating-point paths are decided by cvc5 only (z3 needs minutes per query)
 	}
+	// the second solver is much slower on ite-heavy queries: the cross-check never
+	// runs past the run's deadline and uses at most a fixed share of wall time per
+	// worker; the evidence reports how many final queries were actually repeated
+	if !e.deadline.IsZero() && time.Now().After(e.deadline) {
+		return
+	}
+	if e.xBudget > 0 && e.xSpent > e.xBudget {
+		return
+	}
 	if e.xSolver == nil {
 		e.xSolver = NewSolver("z3")
 	}
+	t0 := time.Now()
+	defer func() { e.xSpent += time.Since(t0) }()
 	xs := e.xSolver
 	xs.Reset()
 	for _, a := range e.pc {
 		xs.Assert(a)
 	}
-	r2, _ := xs.Check(c, nil)
+	// z3 4.8.12 does not always honour its soft time-out: a watchdog kills the
+	// process after 45 s, the query counts as not cross-checked and the worker
+	// stops cross-checking
+	done := make(chan string, 1)
+	go func() {
+		defer func() {
+			if recover() != nil {
+				done <- "unknown"
+			}
+		}()
+		r2, _ := xs.Check(c, nil)
+		done <- r2
+	}()
+	var r2 string
+	select {
+	case r2 = <-done:
+	case <-time.After(45 * time.Second):
+		xs.Kill()
+		<-done
+		e.xSolver = nil
+		e.xSpent = e.xBudget + time.Hour
+		return
+	}
 	e.CrossChecked++
 	if r2 != r && r2 != "unknown" {
 		e.CrossMismatch++
